@@ -25,6 +25,7 @@ pub const U1: u64 = 2; // person c4u1, member of g1
 pub const E1: u64 = 3; // group c4e1 (modify target)
 pub const E2: u64 = 4; // group c4e2 (delete target)
 pub const E3: u64 = 5; // extensible object (ACP target: invisible to u1 by default)
+pub const E6: u64 = 6; // group c4e6, deleted in the template (recycled): target of kind "reap"
 pub const NEW: u64 = 10; // created by kind "create"
 pub const ATTR: u64 = 20; // attributetype c4attr
 pub const ACP: u64 = 21; // access control profile c4acp
@@ -35,7 +36,7 @@ pub const DNAME_NEW: &str = "C4 Domain";
 /// attribute-type entries no longer change it, so the "schema" kind runs on a server kept at the
 /// last level whose schema is entry-driven (as the repository's own test_dynamic_schema_attr does).
 pub fn level_of(kind: &str) -> DomainVersion {
-    if kind == "schema" || kind == "schemaidx" {
+    if kind == "schema" || kind == "schemaidx" || kind == "c6" {
         DOMAIN_LEVEL_14
     } else {
         DOMAIN_TGT_LEVEL
@@ -105,7 +106,8 @@ pub async fn make_template(path: &Path, level: DomainVersion) {
                 (Attribute::Class, EntryClass::Group.to_value()),
                 (Attribute::Name, Value::new_iname("c4g1")),
                 (Attribute::Uuid, Value::Uuid(uuid_e(G1))),
-                (Attribute::Member, Value::Refer(uuid_e(U1)))
+                (Attribute::Member, Value::Refer(uuid_e(U1))),
+                (Attribute::Member, Value::Refer(uuid_e(E2)))
             ),
             kanidmd_lib::entry_init!(
                 (Attribute::Class, EntryClass::Object.to_value()),
@@ -138,6 +140,29 @@ pub async fn make_template(path: &Path, level: DomainVersion) {
         ])
         .expect("population");
     w.commit().expect("commit population");
+    // one recycled entry for the reap transaction
+    let mut w = s.idms.proxy_write(t(2)).await.expect("write");
+    w.qs_write
+        .internal_create(vec![kanidmd_lib::entry_init!(
+            (Attribute::Class, EntryClass::Object.to_value()),
+            (Attribute::Class, EntryClass::Group.to_value()),
+            (Attribute::Name, Value::new_iname("c4e6")),
+            (Attribute::Uuid, Value::Uuid(uuid_e(E6)))
+        )])
+        .expect("e6");
+    w.commit().expect("commit e6");
+    let mut w = s.idms.proxy_write(t(3)).await.expect("write");
+    w.qs_write.internal_delete_uuid(uuid_e(E6)).expect("recycle e6");
+    w.commit().expect("commit recycle");
+}
+
+/// Simulated time at which a kind's transaction runs (reap needs the recycle window to have passed).
+pub fn txn_time(kind: &str, base: u64) -> Duration {
+    if kind == "reap" {
+        t(base + RECYCLEBIN_MAX_AGE + 10)
+    } else {
+        t(base)
+    }
 }
 
 pub const KINDS: [&str; 7] = ["create", "modify", "delete", "schema", "acp", "oauth2", "domain"];
@@ -154,6 +179,9 @@ pub fn ops_of(kind: &str) -> Vec<&'static str> {
         "acp" => vec!["acp"],
         "oauth2" => vec!["oauth2"],
         "domain" => vec!["domain"],
+        "reap" => vec!["reap"],
+        // C06 writer: two related entries + schema + access profile + OAuth2 client + domain setting
+        "c6" => vec!["modify", "modifyb", "schema", "acp", "oauth2", "domain"],
         "all" => vec!["create", "modify", "delete", "schema", "acp", "oauth2", "domain"],
         "badop" => vec!["create", "dup"],
         _ => vec![],
@@ -185,7 +213,13 @@ pub fn apply_op(w: &mut QueryServerWriteTransaction<'_>, op: &str) -> Result<(),
                 Modify::Present(Attribute::Description, Value::new_utf8s("d1")),
             ]),
         ),
+        "modifyb" => w.internal_modify_uuid(
+            uuid_e(E2),
+            &ModifyList::new_purge_and_set(Attribute::Description, Value::new_utf8s("d1")),
+        ),
         "delete" => w.internal_delete_uuid(uuid_e(E2)),
+        // recycled -> tombstone for everything older than the recycle window
+        "reap" => w.purge_recycled().map(|_| ()),
         "schema" | "schemaidx" => w.internal_create(vec![kanidmd_lib::entry_init!(
             (Attribute::Class, EntryClass::Object.to_value()),
             (Attribute::Class, EntryClass::AttributeType.to_value()),
